@@ -423,6 +423,16 @@ impl Prop for C14 {
                 protocol_entry = Some(Entry::Valve { engine: *engine, gather: Some(gs) });
                 out.probe("extra_request_settings_with_fields_left_out");
             }
+            // the same for Unreal 2 games (protocol defaults: players Try, mutators and rules Enforce)
+            if let (Protocol::Unreal2, Some(Entry::Unreal2 { .. })) = (&game.protocol, &protocol_entry) {
+                use gamedig::protocols::types::GatherToggle;
+                let opt = |t: &mut Tape| if t.draw(CFG, 2) == 0 { None } else { Some(crate::gen::toggle(t)) };
+                let (gp, gr) = (opt(&mut t), opt(&mut t));
+                extra = Some(gamedig::protocols::types::ExtraRequestSettings { hostname: None, protocol_version: None, gather_players: gp, gather_rules: gr, check_app_id: None });
+                let g = gamedig::protocols::unreal2::GatheringSettings { players: gp.unwrap_or(GatherToggle::Try), mutators_and_rules: gr.unwrap_or(GatherToggle::Enforce) };
+                protocol_entry = Some(Entry::Unreal2 { gather: g });
+                out.probe("extra_request_settings_with_fields_left_out");
+            }
         }
         let eco = matches!(game.protocol, Protocol::PROPRIETARY(ProprietaryProtocol::Eco));
         let run_path = |entry: Entry| -> RunOut {
